@@ -155,6 +155,17 @@ def write_evidence(ctx, level, coverage, assumptions):
     with open(os.path.join(VERIF, "evidence", ctx.prop + ".json"), "w") as f:
         json.dump(ev, f, indent=1)
 
+def string_formats_table():
+    """rows (format, path, impls) of the T2 table regenerated from convert_string on this run, and the fallback path"""
+    p = os.path.join(LEAN, "TypifyModel", "Generated", "StringFormats.lean")
+    if not os.path.exists(p): return [], None
+    txt = open(p, encoding="utf-8").read()
+    row = re.compile(r'⟨("(?:[^"\\]|\\.)*"), ("(?:[^"\\]|\\.)*"), \[([^\]]*)\], \[([^\]]*)\]⟩')
+    head, _, tail = txt.partition("def stringFormatFallback")
+    rows = [(json.loads(m.group(1)), json.loads(m.group(2)), json.loads("[" + m.group(3) + "]")) for m in row.finditer(head)]
+    fb = row.search(tail)
+    return rows, (json.loads(fb.group(2)) if fb else None)
+
 TRUSTED_BASE = [
     "Lean 4.33 kernel and elaborator (axioms per theorem listed under coverage.axioms; only propext, Classical.choice, Quot.sound accepted)",
     "the translator /verif/harness/src/bin/extract.rs (regenerates Generated/Tables.lean from /repo source on every run)",
